@@ -1472,7 +1472,7 @@ func caseVariantScenarios() []*scenario {
 
 func TestZZVerifC16(t *testing.T) {
 	run := core.NewRun("C16", "fault_enumeration",
-		"scenarios = PRNG-built sequences of agent-local operations (add/re-add/update/remove service with its checks, add/re-add/remove check, check status change and output churn with CheckUpdateInterval 0 | 1h (deferral) | 2ms (timer fires)), external catalog drift (foreign service/check added, entries removed, each IsSame-compared field altered, node meta / tagged addresses changed) and full/partial syncs, executed on the real agent/local.State against a real state.Store behind the RPCs the agent uses. For each scenario the RPCs of its fault-free target sync are recorded and EVERY call position x 6 failure kinds is replayed from scratch (with and without an immediate partial retry, and as a failure persisting into the following syncs), plus the fallback-read position, plus double faults (quick: 16 sampled position/kind pairs per scenario; thorough: all position pairs x 4x4 kinds, capped at 240). After every local step and every sync attempt the flag oracle runs; after every fault-free sync the deregistration and convergence oracles run; each execution ends with the first fault-free full sync. An execution is non-trivial if at least one injected fault fired and the target sync contained a write RPC; distinct by (scenario, fault plan). DEFERRAL FAMILY (defer_test.go; quick 1200 / thorough 24000 PRNG scenarios in 8 shapes, each inside a testing/synctest bubble = virtual time, no faults): a state with CheckUpdateInterval 2s|10s|1m is registered and full-synced, then 1..4 output-only UpdateCheck calls of one check inside one deferral window (sleeps of 2-10% of the interval), optionally with a status change, catalog drift of the check (output/status/notes/removed), remove + re-register of the check, partial/full syncs inside the window, a second window after expiry, updates around the window end (0.45-1.5 x interval apart), or a mixed soup over several checks; the scenario closes with a sleep of 1.6 x interval, SyncChanges, SyncFull. After every successful full sync catalog == local for every check and service; Output alone is not demanded for a check whose last output-only update is younger than 1.5 x interval. A deferral scenario is non-trivial if it made at least one output-only update.")
+		"scenarios = PRNG-built sequences of agent-local operations (add/re-add/update/remove service with its checks, add/re-add/remove check, check status change and output churn with CheckUpdateInterval 0 | 1h (deferral) | 2ms (timer fires)), external catalog drift (foreign service/check added, entries removed, each IsSame-compared field altered, node meta / tagged addresses changed) and full/partial syncs, executed on the real agent/local.State against a real state.Store behind the RPCs the agent uses. For each scenario the RPCs of its fault-free target sync are recorded and EVERY call position x 6 failure kinds is replayed from scratch (with and without an immediate partial retry, and as a failure persisting into the following syncs), plus the fallback-read position, plus double faults (quick: 16 sampled position/kind pairs per scenario; thorough: all position pairs x 4x4 kinds, capped at 240). After every local step and every sync attempt the flag oracle runs; after every fault-free sync the deregistration and convergence oracles run; each execution ends with the first fault-free full sync. An execution is non-trivial if at least one injected fault fired and the target sync contained a write RPC; distinct by (scenario, fault plan). DEFERRAL FAMILY (defer_test.go; quick 1000 / thorough 24000 PRNG scenarios in 8 shapes, each inside a testing/synctest bubble = virtual time, no faults): a state with CheckUpdateInterval 2s|10s|1m is registered and full-synced, then 1..4 output-only UpdateCheck calls of one check inside one deferral window (sleeps of 2-10% of the interval), optionally with a status change, catalog drift of the check (output/status/notes/removed), remove + re-register of the check, partial/full syncs inside the window, a second window after expiry, updates around the window end (0.45-1.5 x interval apart), or a mixed soup over several checks; the scenario closes with a sleep of 1.6 x interval, SyncChanges, SyncFull. After every successful full sync catalog == local for every check and service; Output alone is not demanded for a check whose last output-only update is younger than 1.5 x interval. A deferral scenario is non-trivial if it made at least one output-only update.")
 	run.Assume(
 		"the catalog side is the production state.Store driven by EnsureRegistration/DeleteService/DeleteCheck after the same msgpack round trip raft applies; the endpoint's ACL vetting is replaced by injected refusals",
 		"call positions are identified by what the call carries (read:services, register:svc:<id>, deregister:chk:<id>, ...) because the agent walks Go maps: the k-th call differs between executions, the set of positions does not",
